@@ -97,6 +97,7 @@ type incarnation struct {
 	lapsed        map[string]bool
 	droppedDelete map[string]bool
 	poolHandlerCalls int
+	justifiedRelease map[string][]netip.Addr // service -> addresses this incarnation released from it in memory for a reason its own view justifies
 	staleDropped     map[string][]netip.Addr // service -> recorded addresses a handler call dropped because it was shown a stale object
 	gateOpened    bool // the initial-load gate of this incarnation has been open at some point
 }
@@ -564,6 +565,53 @@ func (w *world) serviceHandler(inc *incarnation, l log.Logger, name string, svc 
 	inc.curName, inc.curSeen, inc.curPre = name, svc, pre
 	res := inc.listener.ServiceHandler(l, name, svc, eps)
 	inc.curName, inc.curSeen, inc.curPre = "", nil, nil
+	// releases the controller decided in memory and that its own view justifies: the processed
+	// service is gone / no LoadBalancer any more, its addresses are not admissible for its spec, or
+	// its spec is in conflict with another service that holds the address IN MEMORY (an allocation
+	// whose status write may still be pending).  The status correction of such a release may be
+	// delayed by failing writes; giving the address to somebody else meanwhile is not a steal.
+	{
+		post := w.holdings(inc)
+		for _, a := range pre[name].IPs {
+			if containsAddr(post[name].IPs, a) {
+				continue
+			}
+			justified := svc == nil || svc.Spec.Type != v1.ServiceTypeLoadBalancer || !w.managed(svc) ||
+				inc.cfgInForce == nil || inc.cfgInForce.CheckAssignmentStatic(name, svc, pre[name].IPs) != ""
+			if !justified {
+				for _, x := range pre.HoldersOf(a) {
+					if x != name && pre[x].Svc != nil && !specalloc.MustShare(svc, pre[x].Svc) {
+						justified = true
+					}
+				}
+			}
+			if inc.justifiedRelease == nil {
+				inc.justifiedRelease = map[string][]netip.Addr{}
+			}
+			var keep []netip.Addr
+			for _, b := range inc.justifiedRelease[name] {
+				if b != a {
+					keep = append(keep, b)
+				}
+			}
+			if justified {
+				keep = append(keep, a)
+			}
+			inc.justifiedRelease[name] = keep
+		}
+		for _, a := range post[name].IPs {
+			// re-acquired: the earlier release is history
+			var keep []netip.Addr
+			for _, b := range inc.justifiedRelease[name] {
+				if b != a {
+					keep = append(keep, b)
+				}
+			}
+			if inc.justifiedRelease != nil {
+				inc.justifiedRelease[name] = keep
+			}
+		}
+	}
 	if staleShown {
 		post := w.holdings(inc)
 		for _, a := range pre[name].IPs {
